@@ -51,6 +51,7 @@ inductive CDecl where
   | nonDelay (res : String)
   | distance (res : String) (d : Int) (intervals : Option (List (Int × Int))) (mode : CountKind)
   | interrupted (res : String) (intervals : List (Int × Int))
+  | periodicallyInterrupted (res : String) (intervals : List (Int × Int)) (period start offset : Int) (end_ : Option Int)
   | periodicallyUnavailable (res : String) (intervals : List (Int × Int)) (period start offset : Int) (end_ : Option Int)
   | sameWorkers (s1 s2 : Nat)
   | distinctWorkers (s1 s2 : Nat)
@@ -89,6 +90,7 @@ inductive ODecl where
   | resourceCost (rs : List String)
   | maximizeMaxBuffer (b : String)
   | minimizeMaxBuffer (b : String)
+  | flowtimeSingleResource (res : String) (interval : Option (Int × Int))
   deriving Inhabited
 
 /-- the public constructor calls -/
@@ -285,6 +287,7 @@ def className : CDecl → String
   | .and_ .. => "And" | .xor_ .. => "Xor" | .implies .. => "Implies" | .ifThenElse .. => "IfThenElse"
   | .unavailable .. => "ResourceUnavailable" | .workload .. => "WorkLoad" | .nonDelay .. => "ResourceNonDelay"
   | .distance .. => "ResourceTasksDistance" | .interrupted .. => "ResourceInterrupted"
+  | .periodicallyInterrupted .. => "ResourcePeriodicallyInterrupted"
   | .periodicallyUnavailable .. => "ResourcePeriodicallyUnavailable" | .sameWorkers .. => "SameWorkers"
   | .distinctWorkers .. => "DistinctWorkers" | .unloadBuffer .. => "TaskUnloadBuffer"
   | .loadBuffer .. => "TaskLoadBuffer" | .indicatorTarget .. => "IndicatorTarget"
@@ -384,6 +387,20 @@ def State.resolve (st : State) : CDecl → Resolved
            let busy := st.busyRefs res
            if busy.isEmpty || ivs.isEmpty then .raises .assertion []
            else .body (.periodicallyUnavailable busy ivs period start offset end_) []
+       | none => match st.findCumul res with
+           | some _ => .raises .attribute []      -- `self.resource.cumulative_workers` does not exist
+           | none => .invalid .validation)
+  | .periodicallyInterrupted res ivs period start offset end_ =>
+      (match st.findWorker res with
+       | some _ =>
+           let busy := (st.busyRefs res).filterMap (fun (b : BusyRef) => (st.findTask b.task).map (fun t => (b, t)))
+           if busy.isEmpty then
+             -- the masks read loop variables that were never bound (UnboundLocalError); without masks the empty
+             -- conjunction is asserted and the "not assigned" AssertionError follows
+             if start > 0 || end_.isSome then .raises .other []
+             else .raisesWith .assertion (.periodicallyInterrupted busy ivs period start offset end_)
+           else if ivs.any (fun iv => iv.2 > period) then .raises .assertion []
+           else .body (.periodicallyInterrupted busy ivs period start offset end_) []
        | none => match st.findCumul res with
            | some _ => .raises .attribute []      -- `self.resource.cumulative_workers` does not exist
            | none => .invalid .validation)
@@ -574,6 +591,28 @@ def stepObjective (st : State) : ODecl → Res
   | .minimizeMaxBuffer b => match st.resolveI (.maxBuffer b) with
       | some (cls, key, name, bounds, body) => st.indThenObj cls key name bounds body "MinimizeBufferLevel" false
       | none => fail st .validation
+  | .flowtimeSingleResource res interval => match st.ownBusy res with
+      | none => fail st .validation
+      | some busy =>
+          let tasks := busy.filterMap (fun (b : BusyRef) => st.findTask b.task)
+          let (lo, hi, his) : Term × Term × String := match interval with
+            | some (l, h) => (numT l, numT h, toString h)
+            | none => (numT 0, .var .horizon, "horizon")
+          let los : String := match interval with | some (l, _) => toString l | none => "0"
+          let tag := "_%f" ++ toString st.indicators.length ++ "%"
+          let flow := Term.var (.named ("FlowtimeSingleResource" ++ res ++ tag))
+          let maxi := Term.var (.named ("GreatestTaskEndTimeInTimePeriodForResource" ++ res ++ tag))
+          let mini := Term.var (.named ("SmallestTaskEndTimeInTimePeriodForResource" ++ res ++ tag))
+          let inWin (t : Task) : Fml := .and [.le t.eVar hi, .ge t.sVar lo]
+          let extra : List Fml :=
+            [Fml.or (tasks.map (fun t => Fml.imp (inWin t) (.eq maxi t.eVar)))] ++
+            tasks.map (fun t => Fml.imp (inWin t) (.ge maxi t.eVar)) ++
+            [Fml.or (tasks.map (fun t => Fml.imp (.and [.le t.eVar hi, .le t.sVar lo]) (.eq mini t.sVar)))] ++
+            tasks.map (fun t => Fml.imp (inWin t) (.le mini t.sVar)) ++
+            [.eq flow (.sub maxi mini), .ge flow (numT 0)]
+          let nm := "(" ++ res ++ ":" ++ los ++ ":" ++ his ++ ")"
+          st.indThenObj "IndicatorFromMathExpression" (some ("FlowTimeSingleResource" ++ nm)) ("FlowTimeSingleResource" ++ nm)
+            none (.expr flow extra) ("ObjectiveFlowtimeSingleResource" ++ nm) false
 
 def step (st : State) : Decl → Res
   | .problem name horizon => stepProblem st name horizon
